@@ -140,6 +140,9 @@ func ReadUint32(rd io.Reader) (uint32, error) {
 // maxPrealloc is the largest buffer that ReadNBytes allocates in advance
 const maxPrealloc = 4096
 
+// maxInt is the largest value of an int on this platform
+const maxInt = int(^uint(0) >> 1)
+
 // ReadNBytes reads n bytes from the reader
 func ReadNBytes(n int, rd io.Reader) ([]byte, error) {
 	// n may be a length taken from untrusted data: for large n grow the buffer as the data arrives,
@@ -342,12 +345,16 @@ func ReadVarLengthData(reader io.Reader) ([]byte, error) {
 		return []byte{}, err
 	}
 
-	var buffer []byte = make([]byte, length)
+	// the length comes from the data and need not be true: ReadNBytes does not allocate it in advance
+	// (a text event of a few bytes can declare 4 GB)
+	if uint64(length) > uint64(maxInt) {
+		return []byte{}, ErrUnexpectedEOF
+	}
 
-	num, err := reader.Read(buffer)
+	buffer, err := ReadNBytes(int(length), reader)
 
 	// If we couldn't read the entire expected-length buffer, that's a problem.
-	if num != int(length) {
+	if len(buffer) != int(length) || err == io.EOF || err == io.ErrUnexpectedEOF {
 		return []byte{}, ErrUnexpectedEOF
 	}
 
